@@ -14,7 +14,7 @@ def nontrivial(case, df, delta):
 
 def run(sh):
     rng = gen.rng_for(sh.seed, PROP, sh.shard)
-    K = 50 if sh.tier == 'quick' else 2500
+    K = 50 if sh.tier == 'quick' else 5000
     for it in range(K):
         case = gen.gen_pipeline_case(rng)
         api = 'func' if rng.random() < 0.7 else 'obj'
